@@ -35,12 +35,33 @@ func c20Thread(seed uint64, nops int) string {
 			} else {
 				doc = genDoc(r, smallOpts(r))
 			}
+			if r.Chance(1, 4) {
+				// a large document that stage 1 rejects at its very end (the pipeline's
+				// failure hand-shake), parsed into the reused object; the object handed in
+				// must be exactly as it was once the call has returned
+				doc = bigDoc(r, 16+r.Intn(12), 0)
+				if r.Bool() {
+					doc = append(doc[:len(doc)-1], []byte(`,"ctl`+"\x01"+`"]`)...)
+				} else {
+					doc = append(doc, []byte(` "unterminated`)...)
+				}
+			}
 			out := implParse(doc, false, r.Bool(), reuse)
 			fmt.Fprintf(h, "P%v", out.Err)
 			if !out.Err {
 				d, _ := dumpDoc(out.PJ)
 				io.WriteString(h, d)
 				reuse = out.PJ
+			} else if reuse != nil {
+				// the object that was handed in is still the caller's once the call has
+				// returned: use it as the destination of the next call straight away
+				again := implParse(genDoc(r, smallOpts(r)), false, true, reuse)
+				fmt.Fprintf(h, "A%v", again.Err)
+				if !again.Err {
+					d, _ := dumpDoc(again.PJ)
+					io.WriteString(h, d)
+					reuse = again.PJ
+				}
 			}
 		case 2: // ParseND
 			var sb strings.Builder
